@@ -17,12 +17,19 @@ pub enum Case {
     Three { st: Gs3State, vars_only: bool },
 }
 
+static FIDELITY: std::sync::atomic::AtomicU64 = std::sync::atomic::AtomicU64::new(0);
+
 pub struct C04;
 
 impl Prop for C04 {
     type Case = Case;
 
     fn id(&self) -> &'static str { "C04" }
+
+    fn extra_evidence(&self) -> serde_json::Value {
+        serde_json::json!({"traces_validated_against_impl": FIDELITY.load(std::sync::atomic::Ordering::Relaxed),
+                           "traces_validated_note": "a sample of the cases is replayed over real loopback sockets with the same reference server; the result must equal the scripted-transport result"})
+    }
 
     fn rule(&self) -> String {
         "random GameSpy 1 / 2 / 3 server states (typed variables with optional members and alternative spellings, 0-64 players with optional \
@@ -74,6 +81,9 @@ impl Prop for C04 {
                 o.label(format!("gs1-parts={}", dgs.len().min(8)));
                 o.label(format!("gs1-{}", plabel(st.players.len())));
                 o.nontrivial = (!st.players.is_empty() && !st.extras.is_empty()) || dgs.len() > 1;
+                let sample = crate::runner::digest(&dgs.concat()) % 48 == 0;
+                let dgs2 = dgs.clone();
+                let make = move || Box::new(DatagramServer { request: GS1_REQUEST.to_vec(), reply: dgs2.clone() }) as Box<dyn crate::wire::Responder>;
                 let server = DatagramServer {
                     request: GS1_REQUEST.to_vec(),
                     reply: dgs,
@@ -81,9 +91,15 @@ impl Prop for C04 {
                 if *vars_only {
                     let run = run_scripted(Box::new(server), || one::query_vars(&addr, None));
                     o.failure = expect_equal("C04", "gamespy::one::query_vars", &run, &st.expected_vars(), &[]);
+                    if sample && o.failure.is_none() {
+                        crate::realnet::fidelity("C04 gs1 vars", gamedig::verif_hook::Proto::Udp, make, &run, 1000, |a, t| one::query_vars(&a, t), &FIDELITY);
+                    }
                 } else {
                     let run = run_scripted(Box::new(server), || one::query(&addr, None));
                     o.failure = expect_equal("C04", "gamespy::one::query", &run, &st.expected(), &["unused_entries"]);
+                    if sample && o.failure.is_none() {
+                        crate::realnet::fidelity("C04 gs1", gamedig::verif_hook::Proto::Udp, make, &run, 1000, |a, t| one::query(&a, t), &FIDELITY);
+                    }
                 }
             }
             Case::Two { st } => {
@@ -91,12 +107,19 @@ impl Prop for C04 {
                 o.label(format!("gs2-{}", plabel(st.players.len())));
                 o.label(format!("gs2-teams={}", st.teams.len().min(3)));
                 o.nontrivial = !st.players.is_empty() && !st.extras.is_empty();
+                let dg = st.encode();
+                let sample = crate::runner::digest(&dg) % 48 == 0;
+                let dg2 = dg.clone();
+                let make = move || Box::new(DatagramServer { request: GS2_REQUEST.to_vec(), reply: vec![dg2.clone()] }) as Box<dyn crate::wire::Responder>;
                 let server = DatagramServer {
                     request: GS2_REQUEST.to_vec(),
-                    reply: vec![st.encode()],
+                    reply: vec![dg],
                 };
                 let run = run_scripted(Box::new(server), || two::query(&addr, None));
                 o.failure = expect_equal("C04", "gamespy::two::query", &run, &st.expected(), &["unused_entries"]);
+                if sample && o.failure.is_none() {
+                    crate::realnet::fidelity("C04 gs2", gamedig::verif_hook::Proto::Udp, make, &run, 1000, |a, t| two::query(&a, t), &FIDELITY);
+                }
             }
             Case::Three { st, vars_only } => {
                 let dgs = st.datagrams();
@@ -105,13 +128,22 @@ impl Prop for C04 {
                 o.label(format!("gs3-{}", plabel(st.players.len())));
                 o.label(if st.challenge == 0 { "gs3-no-challenge" } else { "gs3-challenge" });
                 o.nontrivial = (!st.players.is_empty() && !st.extras.is_empty()) || dgs.len() > 1;
+                let sample = crate::runner::digest(&dgs.concat()) % 48 == 0;
+                let (dgs2, challenge) = (dgs.clone(), st.challenge);
+                let make = move || Box::new(Gs3Server::new(challenge, [0xFF, 0xFF, 0xFF, 0x01], dgs2.clone())) as Box<dyn crate::wire::Responder>;
                 let server = Gs3Server::new(st.challenge, [0xFF, 0xFF, 0xFF, 0x01], dgs);
                 if *vars_only {
                     let run = run_scripted(Box::new(server), || three::query_vars(&addr, None));
                     o.failure = expect_equal("C04", "gamespy::three::query_vars", &run, &st.expected_vars(), &[]);
+                    if sample && o.failure.is_none() {
+                        crate::realnet::fidelity("C04 gs3 vars", gamedig::verif_hook::Proto::Udp, make, &run, 1000, |a, t| three::query_vars(&a, t), &FIDELITY);
+                    }
                 } else {
                     let run = run_scripted(Box::new(server), || three::query(&addr, None));
                     o.failure = expect_equal("C04", "gamespy::three::query", &run, &st.expected(), &["unused_entries"]);
+                    if sample && o.failure.is_none() {
+                        crate::realnet::fidelity("C04 gs3", gamedig::verif_hook::Proto::Udp, make, &run, 1000, |a, t| three::query(&a, t), &FIDELITY);
+                    }
                 }
             }
         }
